@@ -636,4 +636,145 @@ Section Reach.
     - intros x rd H. exact H.
     - intros x H. exact H.
   Qed.
+
+  (* ---- records ---- *)
+  Definition rec_ok (c : crec) : Prop :=
+    (forall e, In e (cr_wr c) -> In (e_key e) (cr_keys c)) /\
+    (forall k, In k (cr_keys c) -> exists e, In e (cr_wr c) /\ e_key e = k) /\
+    cr_keys c <> [].
+  Definition rec_api (c : crec) : Prop :=
+    (forall e, In e (cr_wr c) -> e_ver e = cr_cts c) /\ NoDup (map e_key (cr_wr c)).
+
+  Lemma stamp_key ts e : e_key (stamp ts e) = e_key e.
+  Proof. unfold stamp. destruct (e_ver e =? 0); reflexivity. Qed.
+
+  Lemma rec_of_ok t x ts ap : txn_wf x -> x_pend x <> [] -> rec_ok (rec_of t x ts ap).
+  Proof.
+    intros (W1 & W2 & W3) Hne. unfold rec_ok, rec_of, commit_entries. cbn [cr_wr cr_keys]. repeat split.
+    - intros e H. apply in_app_iff in H. destruct H as [H|H]; apply in_map_iff in H.
+      + destruct H as (e0 & <- & H). rewrite stamp_key. auto.
+      + destruct H as ([k e0] & <- & H). cbn [snd]. rewrite stamp_key, (W1 _ _ H).
+        apply (in_map fst) in H. exact H.
+    - intros k H. apply in_map_iff in H. destruct H as ([k0 e0] & <- & H). cbn [fst].
+      exists (stamp ts e0). split.
+      + apply in_or_app. right. apply in_map_iff. exists (k0, e0). auto.
+      + rewrite stamp_key. eauto.
+    - destruct (x_pend x); [congruence|discriminate].
+  Qed.
+
+  Lemma rec_of_api t x ts ap : txn_wf x -> txn_api x -> rec_api (rec_of t x ts ap).
+  Proof.
+    intros (W1 & W2 & W3) (A1 & A2). unfold rec_api, rec_of, commit_entries. cbn [cr_wr cr_cts].
+    rewrite A2. cbn [map app]. split.
+    - intros e H. apply in_map_iff in H. destruct H as ([k e0] & <- & H). cbn [snd].
+      unfold stamp. rewrite (A1 _ _ H). reflexivity.
+    - rewrite map_map. erewrite map_ext_in; [exact W3|].
+      intros [k e0] H. cbn [snd fst]. rewrite stamp_key. eauto.
+  Qed.
+
+  Lemma reach_rec_ok P s L : xreach P fx s0 s L -> Forall rec_ok L.
+  Proof.
+    induction 1 as [|s L o s' R IH Po St]; [constructor|]. apply Forall_app. split; auto.
+    destruct (xstep_outcome _ _ _ _ St) as [E Ec Ew En|t x cts ap El Ep Ed Ecf E Es]; rewrite E; constructor; auto.
+    apply rec_of_ok; auto. eapply reach_wf; eauto.
+  Qed.
+
+  Lemma reach_rec_api s L : xreach xop_api fx s0 s L -> Forall rec_api L.
+  Proof.
+    induction 1 as [|s L o s' R IH Po St]; [constructor|]. apply Forall_app. split; auto.
+    destruct (xstep_outcome _ _ _ _ St) as [E Ec Ew En|t x cts ap El Ep Ed Ecf E Es]; rewrite E; constructor; auto.
+    apply rec_of_api; [eapply reach_wf|eapply reach_api]; eauto.
+  Qed.
+
+  (* ---- timestamps (normal mode) ---- *)
+  Lemma reach_next_mono P s L : xreach P fx s0 s L -> next0 <= s_next (x_base s).
+  Proof.
+    induction 1 as [|s L o s' R IH Po St]; [cbn; lia|].
+    destruct (xstep_outcome _ _ _ _ St) as [E Ec Ew En|t x cts ap El Ep Ed Ecf E Es].
+    - rewrite En. exact IH.
+    - rewrite Es. destruct ap; unfold applied_state, rejected_state, commit_next; cbn [s_next];
+        destruct (s_managed (x_base s)); lia.
+  Qed.
+
+  Lemma reach_ts P s L : m = false -> xreach P fx s0 s L ->
+    s_next (x_base s) = next0 + N.of_nat (length L) /\ consec next0 L.
+  Proof.
+    intros Hm. induction 1 as [|s L o s' R IH Po St]; [cbn; split; [lia|exact I]|].
+    destruct IH as [IHn IHc]. destruct (reach_flags _ _ _ R) as [Fm _]. rewrite Hm in Fm.
+    destruct (xstep_outcome _ _ _ _ St) as [E Ec Ew En|t x cts ap El Ep Ed Ecf E Es].
+    - rewrite E, app_nil_r, En. auto.
+    - rewrite E, app_length, Es. split.
+      + destruct ap; unfold applied_state, rejected_state, commit_next; cbn [s_next length]; rewrite Fm; lia.
+      + apply consec_app. split; auto. cbn [consec rec_of cr_cts]. unfold commit_ts. rewrite Fm. split; [lia|exact I].
+  Qed.
+
+  (* every transaction reads strictly below the next timestamp; every record was read strictly
+     below its commit timestamp *)
+  Lemma reach_read_lt P s L : m = false -> 0 < next0 -> xreach P fx s0 s L ->
+    txns_ok (fun x => x_read x < s_next (x_base s)) (s_txns (x_base s)) /\
+    Forall (fun c => cr_rts c < cr_cts c) L.
+  Proof.
+    intros Hm Hn. induction 1 as [|s L o s' R IH Po St]; [split; [intros t x; discriminate|constructor]|].
+    destruct IH as [IHt IHl]. destruct (reach_flags _ _ _ R) as [Fm _]. rewrite Hm in Fm.
+    pose proof (reach_next_mono _ _ _ R) as Hge.
+    assert (Hmono: s_next (x_base s) <= s_next (x_base s')).
+    { destruct (xstep_outcome _ _ _ _ St) as [E Ec Ew En|t x cts ap El Ep Ed Ecf E Es].
+      - rewrite En. lia.
+      - rewrite Es. destruct ap; unfold applied_state, rejected_state, commit_next; cbn [s_next]; rewrite Fm; lia. }
+    split.
+    - intros t' x' Hl. destruct (xstep_txns _ _ _ _ _ _ St Hl) as [H|upd Eo Ex|x e r H Eo Ex|x rd H Ex|x H Ex].
+      + specialize (IHt _ _ H). cbn in IHt. lia.
+      + subst o. unfold xstep in St. apply lift_ok in St. destruct St as (s1 & St & ->). unfold step in St.
+        rewrite Fm in St. cbn [orb] in St. destruct (x_read x' =? s_next (x_base s) - 1) eqn:E; [|discriminate].
+        apply N.eqb_eq in E. inversion St; subst. cbn [x_base set_txn s_next]. lia.
+      + specialize (IHt _ _ H). cbn in IHt. subst x'.
+        destruct (txn_modify_cases x e) as [->|[_ ->]]; cbn [x_read]; lia.
+      + specialize (IHt _ _ H). cbn in IHt. subst x'. cbn [x_read]. lia.
+      + specialize (IHt _ _ H). cbn in IHt. subst x'. cbn [discard_txn x_read]. lia.
+    - apply Forall_app. split; auto.
+      destruct (xstep_outcome _ _ _ _ St) as [E Ec Ew En|t x cts ap El Ep Ed Ecf E Es]; rewrite E; constructor; auto.
+      cbn [rec_of cr_rts cr_cts]. unfold commit_ts. rewrite Fm. apply (IHt _ _ El).
+  Qed.
+
+  (* ---- the conflict check, read off the log ---- *)
+  Inductive ser : list crec -> Prop :=
+  | ser_nil : ser []
+  | ser_snoc L c : ser L ->
+      (forall c' k, In c' L -> logged fx c' = true -> In k (cr_rd c) -> In k (cr_keys c') ->
+                    cr_cts c' <= cr_rts c) ->
+      ser (L ++ [c]).
+
+  Lemma conflict_log_iff P s L x : d = true -> xreach P fx s0 s L ->
+    (has_conflict (x_base s) x = true <->
+     exists c k, In c L /\ logged fx c = true /\ x_read x < cr_cts c /\ In k (x_reads x) /\ In k (cr_keys c)).
+  Proof.
+    intros Hd R. rewrite has_conflict_true. destruct (reach_log _ _ _ R) as [Ec _]. rewrite Ec, Hd. split.
+    - intros (cw & k & Hin & Hlt & Hr & Hw). apply in_map_iff in Hin. destruct Hin as (c & <- & Hc).
+      apply filter_In in Hc. exists c, k. cbn in *. tauto.
+    - intros (c & k & Hc & Hlg & Hlt & Hr & Hw). exists (ckey c), k. repeat split; auto.
+      apply in_map. apply filter_In. auto.
+  Qed.
+
+  Lemma reach_ser P s L : d = true -> xreach P fx s0 s L -> ser L.
+  Proof.
+    intros Hd. induction 1 as [|s L o s' R IH Po St]; [constructor|].
+    destruct (reach_flags _ _ _ R) as [_ Fd].
+    destruct (xstep_outcome _ _ _ _ St) as [E Ec Ew En|t x cts ap El Ep Ed Ecf E Es]; rewrite E.
+    - now rewrite app_nil_r.
+    - constructor; auto. intros c' k Hc Hlg Hr Hw. cbn [rec_of cr_rd cr_rts] in *.
+      rewrite Fd, Hd in Ecf. cbn [andb] in Ecf.
+      destruct (N.le_gt_cases (cr_cts c') (x_read x)) as [Hle|Hgt]; auto.
+      exfalso. assert (Hc1: has_conflict (x_base s) x = true).
+      { eapply conflict_log_iff; eauto. exists c', k. repeat split; auto. }
+      congruence.
+  Qed.
+
+  Lemma ser_before L : ser L -> forall a b, before L a b -> logged fx a = true ->
+    forall k, In k (cr_rd b) -> In k (cr_keys a) -> cr_cts a <= cr_rts b.
+  Proof.
+    induction 1 as [|L c S IH Hc]; intros a b Hb.
+    - destruct Hb as (L1 & L2 & L3 & E). destruct L1; discriminate.
+    - apply before_snoc in Hb. destruct Hb as [Hb|[-> Hin]]; [now apply IH|].
+      intros Hlg k Hr Hw. eapply Hc; eauto.
+  Qed.
 End Reach.
